@@ -1,35 +1,709 @@
 /-
 C02 — Mapping partitioning never changes the result.
-(The general theorems — label independence of the grouped evaluation, totality of the partitioners — are in
-preparation in a separate file set; this file holds what is already checked.)
+
+`Model.evalGrouped` is `materialize_set` as it runs (group by `mapping_partition`, one set per group, union);
+`Model.evalAll` is the union over the asserted rules.  The label never enters `Model.evalRule`, so *every*
+labelling gives the same outcome (`C02_any_labelling`); what the partitioners must add is that they label every
+rule, with a non-null label, without raising (`C02_partitioners_total`) — which the unchanged code does *not*
+guarantee for a template without reference (`C02_F1_template_without_reference`).
 -/
-import MorphKgc.Model.Partition
 import MorphKgc.Model.Eval
+import MorphKgc.Model.Partition
+import MorphKgc.Lemmas.Grouping
+import MorphKgc.Lemmas.Str
+import MorphKgc.Lemmas.Partition
 
 namespace Props.C02
 open Py Model
 
-/-- with partitioning disabled every rule table is labelled -/
-theorem C02_none_total (rules : List Rule) :
-    ∃ ls, partitionLabels .none rules = .ok ls ∧ ls.length = rules.length ∧ ∀ l ∈ ls, l ≠ [] := by
-  refine ⟨rules.map fun _ => "0-0-0-0".toList, rfl, by simp, ?_⟩
-  intro l hl
-  simp only [List.mem_map] at hl
-  obtain ⟨_, _, rfl⟩ := hl
-  decide
+/-! ### A1: rule evaluation never reads the label -/
 
-def witnessRule : Rule :=
-  { tmId := "#TM0".toList, subjectMapType := .template, subjectMapValue := "http://ex/const".toList,
-    predicateMapValue := "http://ex/p".toList, objectMapValue := "http://ex/o".toList,
-    graphMapValue := "http://w3id.org/rml/defaultGraph".toList }
+/-- the rule with another `mapping_partition` -/
+def relabel (r : Rule) (l : Str) : Rule := { r with partition := l }
 
-/-- C02_F1: a template without any reference is materialized with partitioning disabled (one-row table) but makes
-    both partitioning algorithms raise `Invalid template` -/
+theorem withLabels_nil_left (ls : List Str) : withLabels [] ls = [] := by simp [withLabels]
+
+theorem withLabels_cons (r : Rule) (rules : List Rule) (l : Str) (ls : List Str) :
+    withLabels (r :: rules) (l :: ls) = relabel r l :: withLabels rules ls := by
+  simp [withLabels, relabel]
+
+/-- the parent lookup goes by `triples_map_id`: it finds the same rule, relabelled -/
+theorem findRule_withLabels (rules : List Rule) (ls : List Str) (hl : ls.length = rules.length) (tm : Str) :
+    (findRule rules tm = none ∧ findRule (withLabels rules ls) tm = none) ∨
+    (∃ p l, findRule rules tm = some p ∧ findRule (withLabels rules ls) tm = some (relabel p l)) := by
+  induction rules generalizing ls with
+  | nil => left; simp [findRule, withLabels]
+  | cons r rules ih =>
+    match ls, hl with
+    | l :: ls, hl =>
+      rw [withLabels_cons]
+      by_cases hr : r.tmId = tm
+      · right
+        refine ⟨r, l, ?_, ?_⟩
+        · simp [findRule, hr]
+        · simp [findRule, relabel, hr]
+      · have hl' : ls.length = rules.length := by simpa using hl
+        have h1 : findRule (r :: rules) tm = findRule rules tm := by
+          simp [findRule, hr]
+        have h2 : findRule (relabel r l :: withLabels rules ls) tm = findRule (withLabels rules ls) tm := by
+          simp [findRule, relabel, hr]
+        rw [h1, h2]
+        exact ih ls hl'
+
+theorem rowTriple_relabel (env : Env) (r : Rule) (l : Str) (k : MapType) (v a : Str) (ρ : SRow) :
+    rowTriple env (relabel r l) k v a ρ = rowTriple env r k v a ρ := rfl
+
+/-- **A1.** `_materialize_rml_rule` gives the same list of statements whatever labels the rules carry. -/
+theorem evalRule_relabel (env : Env) (rules : List Rule) (ls : List Str) (hl : ls.length = rules.length)
+    (r : Rule) (l : Str) :
+    evalRule env (withLabels rules ls) (relabel r l) = evalRule env rules r := by
+  unfold evalRule
+  have hc : isAllConstant (relabel r l) = isAllConstant r := rfl
+  have hm : (relabel r l).objectMapType = r.objectMapType := rfl
+  have hv : (relabel r l).objectMapValue = r.objectMapValue := rfl
+  have hj : (relabel r l).objectJoin = r.objectJoin := rfl
+  have hrefs : refsOfRule (relabel r l) = refsOfRule r := rfl
+  have ht : env.table (relabel r l) = env.table r := rfl
+  have hrt : rowTriple env (relabel r l) = rowTriple env r := rfl
+  simp only [hc, hm, hv, hj, hrefs, ht, hrt]
+  split
+  · rfl
+  · split
+    · rcases findRule_withLabels rules ls hl r.objectMapValue with ⟨h1, h2⟩ | ⟨p, l', h1, h2⟩
+      · rw [h1, h2]
+      · rw [h1, h2]
+        rfl
+    · rfl
+
+/-! ### A2: the grouped run and the plain union -/
+
+/-- two outcomes are the same: both raise, or both succeed with the same members -/
+def SameOutcome : Except MatErr (List Str) → Except MatErr (List Str) → Prop
+  | .ok a, .ok b => ∀ x, x ∈ a ↔ x ∈ b
+  | .error _, .error _ => True
+  | _, _ => False
+
+theorem SameOutcome.refl (a : Except MatErr (List Str)) : SameOutcome a a := by
+  cases a <;> simp [SameOutcome]
+
+theorem SameOutcome.symm {a b : Except MatErr (List Str)} (h : SameOutcome a b) : SameOutcome b a := by
+  cases a <;> cases b <;> simp_all [SameOutcome]
+
+theorem SameOutcome.trans {a b c : Except MatErr (List Str)} (h : SameOutcome a b) (h' : SameOutcome b c) :
+    SameOutcome a c := by
+  cases a <;> cases b <;> cases c <;> simp_all [SameOutcome]
+
+/-- every asserted rule evaluates -/
+def AllOk (env : Env) (rules : List Rule) : Prop :=
+  ∀ r ∈ rules.filter (·.asserted), ∃ out, evalRule env rules r = .ok out
+
+/-- some asserted rule raises -/
+def SomeError (env : Env) (rules : List Rule) : Prop :=
+  ∃ r ∈ rules.filter (·.asserted), ∃ e, evalRule env rules r = .error e
+
+/-- `x` is produced by some asserted rule -/
+def Produced (env : Env) (rules : List Rule) (x : Str) : Prop :=
+  ∃ r ∈ rules.filter (·.asserted), ∃ out, evalRule env rules r = .ok out ∧ x ∈ out
+
+theorem allOk_or_someError (env : Env) (rules : List Rule) : AllOk env rules ∨ SomeError env rules :=
+  forall_ok_or_exists_error _ _
+
+theorem mem_okVal_iff {f : Rule → Except MatErr (List Str)} {r : Rule} {x : Str} (h : ∃ out, f r = .ok out) :
+    x ∈ okVal (f r) ↔ ∃ out, f r = .ok out ∧ x ∈ out := by
+  obtain ⟨out, ho⟩ := h
+  simp [ho, okVal]
+
+theorem evalAll_ok (env : Env) (rules : List Rule) (h : AllOk env rules) :
+    ∃ a, evalAll env rules = .ok a ∧ ∀ x, x ∈ a ↔ Produced env rules x := by
+  unfold evalAll
+  rw [mapM_ok_of_forall _ _ h]
+  refine ⟨_, rfl, ?_⟩
+  intro x
+  rw [mem_dedupFirst]
+  simp only [List.mem_flatten, List.mem_map]
+  constructor
+  · rintro ⟨_, ⟨r, hr, rfl⟩, hx⟩
+    exact ⟨r, hr, (mem_okVal_iff (h r hr)).mp hx⟩
+  · rintro ⟨r, hr, hx⟩
+    exact ⟨_, ⟨r, hr, rfl⟩, (mem_okVal_iff (h r hr)).mpr hx⟩
+
+theorem evalAll_error (env : Env) (rules : List Rule) (h : SomeError env rules) :
+    ∃ e, evalAll env rules = .error e := by
+  unfold evalAll
+  obtain ⟨e, he⟩ := mapM_error_of_exists _ _ h
+  exact ⟨e, by rw [he]; rfl⟩
+
+/-- one group of the grouped run -/
+def evalGroup (env : Env) (rules : List Rule) (l : Str) : Except MatErr (List Str) := do
+  let parts ← ((rules.filter (·.asserted)).filter (·.partition = l)).mapM (evalRule env rules)
+  pure (dedupFirst parts.flatten)
+
+theorem evalGrouped_eq (env : Env) (rules : List Rule) :
+    evalGrouped env rules = (do
+      let groups ← (dedupFirst ((rules.filter (·.asserted)).map (·.partition))).mapM (evalGroup env rules)
+      pure (dedupFirst groups.flatten)) := rfl
+
+theorem evalGroup_ok (env : Env) (rules : List Rule) (h : AllOk env rules) (l : Str) :
+    ∃ g, evalGroup env rules l = .ok g ∧
+      ∀ x, x ∈ g ↔ ∃ r ∈ rules.filter (·.asserted), r.partition = l ∧ ∃ out, evalRule env rules r = .ok out ∧ x ∈ out := by
+  unfold evalGroup
+  have h' : ∀ r ∈ (rules.filter (·.asserted)).filter (·.partition = l), ∃ out, evalRule env rules r = .ok out :=
+    fun r hr => h r (List.mem_filter.mp hr).1
+  rw [mapM_ok_of_forall _ _ h']
+  refine ⟨_, rfl, ?_⟩
+  intro x
+  rw [mem_dedupFirst]
+  simp only [List.mem_flatten, List.mem_map]
+  constructor
+  · rintro ⟨_, ⟨r, hr, rfl⟩, hx⟩
+    have hr' := List.mem_filter.mp hr
+    exact ⟨r, hr'.1, by simpa using hr'.2, (mem_okVal_iff (h' r hr)).mp hx⟩
+  · rintro ⟨r, hr, hl, hx⟩
+    have hr' : r ∈ (rules.filter (·.asserted)).filter (·.partition = l) :=
+      List.mem_filter.mpr ⟨hr, by simpa using hl⟩
+    exact ⟨_, ⟨r, hr', rfl⟩, (mem_okVal_iff (h' r hr')).mpr hx⟩
+
+theorem evalGrouped_ok (env : Env) (rules : List Rule) (h : AllOk env rules) :
+    ∃ g, evalGrouped env rules = .ok g ∧ ∀ x, x ∈ g ↔ Produced env rules x := by
+  rw [evalGrouped_eq]
+  have hg : ∀ l ∈ dedupFirst ((rules.filter (·.asserted)).map (·.partition)), ∃ g, evalGroup env rules l = .ok g :=
+    fun l _ => let ⟨g, hg, _⟩ := evalGroup_ok env rules h l; ⟨g, hg⟩
+  rw [mapM_ok_of_forall _ _ hg]
+  refine ⟨_, rfl, ?_⟩
+  intro x
+  rw [mem_dedupFirst]
+  simp only [List.mem_flatten, List.mem_map]
+  constructor
+  · rintro ⟨_, ⟨l, _, rfl⟩, hx⟩
+    obtain ⟨g, hgl, hmem⟩ := evalGroup_ok env rules h l
+    rw [hgl] at hx
+    obtain ⟨r, hr, _, hout⟩ := (hmem x).mp hx
+    exact ⟨r, hr, hout⟩
+  · rintro ⟨r, hr, hout⟩
+    obtain ⟨g, hgl, hmem⟩ := evalGroup_ok env rules h r.partition
+    refine ⟨_, ⟨r.partition, ?_, rfl⟩, ?_⟩
+    · rw [mem_dedupFirst]; exact List.mem_map.mpr ⟨r, hr, rfl⟩
+    · rw [hgl]; exact (hmem x).mpr ⟨r, hr, rfl, hout⟩
+
+theorem evalGrouped_error (env : Env) (rules : List Rule) (h : SomeError env rules) :
+    ∃ e, evalGrouped env rules = .error e := by
+  rw [evalGrouped_eq]
+  obtain ⟨r, hr, e, he⟩ := h
+  have : ∃ l ∈ dedupFirst ((rules.filter (·.asserted)).map (·.partition)), ∃ e, evalGroup env rules l = .error e := by
+    refine ⟨r.partition, ?_, ?_⟩
+    · rw [mem_dedupFirst]; exact List.mem_map.mpr ⟨r, hr, rfl⟩
+    · unfold evalGroup
+      obtain ⟨e', he'⟩ := mapM_error_of_exists (evalRule env rules)
+        ((rules.filter (·.asserted)).filter (·.partition = r.partition))
+        ⟨r, List.mem_filter.mpr ⟨hr, by simp⟩, e, he⟩
+      exact ⟨e', by rw [he']; rfl⟩
+  obtain ⟨e', he'⟩ := mapM_error_of_exists _ _ this
+  exact ⟨e', by rw [he']; rfl⟩
+
+/-- **A2 (i).** If every asserted rule evaluates, the union over rules and the group-by-group run both succeed
+    and have the same members. -/
+theorem grouped_eq_all (env : Env) (rules : List Rule)
+    (h : ∀ r ∈ rules.filter (·.asserted), ∃ out, evalRule env rules r = .ok out) :
+    ∃ a g, evalAll env rules = .ok a ∧ evalGrouped env rules = .ok g ∧ ∀ x, x ∈ g ↔ x ∈ a := by
+  obtain ⟨a, ha, hma⟩ := evalAll_ok env rules h
+  obtain ⟨g, hg, hmg⟩ := evalGrouped_ok env rules h
+  exact ⟨a, g, ha, hg, fun x => (hmg x).trans (hma x).symm⟩
+
+/-- **A2 (ii).** If some asserted rule raises, both runs raise: no statement is lost to an exception in one mode only. -/
+theorem grouped_error_iff_all_error (env : Env) (rules : List Rule)
+    (h : ∃ r ∈ rules.filter (·.asserted), ∃ e, evalRule env rules r = .error e) :
+    (∃ e, evalAll env rules = .error e) ∧ (∃ e, evalGrouped env rules = .error e) :=
+  ⟨evalAll_error env rules h, evalGrouped_error env rules h⟩
+
+theorem grouped_sameOutcome_all (env : Env) (rules : List Rule) :
+    SameOutcome (evalGrouped env rules) (evalAll env rules) := by
+  rcases allOk_or_someError env rules with h | h
+  · obtain ⟨a, g, ha, hg, hm⟩ := grouped_eq_all env rules h
+    rw [ha, hg]; exact hm
+  · obtain ⟨⟨e, he⟩, ⟨e', he'⟩⟩ := grouped_error_iff_all_error env rules h
+    rw [he, he']; trivial
+
+/-! ### A3: any two labellings -/
+
+theorem mem_withLabels (rules : List Rule) (ls : List Str) (_hl : ls.length = rules.length) (r' : Rule) :
+    r' ∈ withLabels rules ls → ∃ r ∈ rules, ∃ l, r' = relabel r l := by
+  intro h
+  simp only [withLabels, List.mem_map] at h
+  obtain ⟨p, hp, rfl⟩ := h
+  exact ⟨p.1, (List.of_mem_zip hp).1, p.2, rfl⟩
+
+theorem exists_mem_withLabels (rules : List Rule) (ls : List Str) (hl : ls.length = rules.length) (r : Rule)
+    (hr : r ∈ rules) : ∃ l, relabel r l ∈ withLabels rules ls := by
+  induction rules generalizing ls with
+  | nil => cases hr
+  | cons q rules ih =>
+    match ls, hl with
+    | l :: ls, hl =>
+      rw [withLabels_cons]
+      rcases List.mem_cons.mp hr with rfl | hr
+      · exact ⟨l, by simp⟩
+      · obtain ⟨l', hl'⟩ := ih ls (by simpa using hl) hr
+        exact ⟨l', List.mem_cons_of_mem _ hl'⟩
+
+theorem allOk_withLabels (env : Env) (rules : List Rule) (ls : List Str) (hl : ls.length = rules.length) :
+    AllOk env (withLabels rules ls) ↔ AllOk env rules := by
+  constructor
+  · intro h r hr
+    have hr' := List.mem_filter.mp hr
+    obtain ⟨l, hmem⟩ := exists_mem_withLabels rules ls hl r hr'.1
+    have := h (relabel r l) (List.mem_filter.mpr ⟨hmem, hr'.2⟩)
+    rwa [evalRule_relabel env rules ls hl] at this
+  · intro h r' hr'
+    have hr'' := List.mem_filter.mp hr'
+    obtain ⟨r, hr, l, rfl⟩ := mem_withLabels rules ls hl r' hr''.1
+    rw [evalRule_relabel env rules ls hl]
+    exact h r (List.mem_filter.mpr ⟨hr, hr''.2⟩)
+
+theorem someError_withLabels (env : Env) (rules : List Rule) (ls : List Str) (hl : ls.length = rules.length) :
+    SomeError env (withLabels rules ls) ↔ SomeError env rules := by
+  constructor
+  · rintro ⟨r', hr', e, he⟩
+    have hr'' := List.mem_filter.mp hr'
+    obtain ⟨r, hr, l, rfl⟩ := mem_withLabels rules ls hl r' hr''.1
+    rw [evalRule_relabel env rules ls hl] at he
+    exact ⟨r, List.mem_filter.mpr ⟨hr, hr''.2⟩, e, he⟩
+  · rintro ⟨r, hr, e, he⟩
+    have hr' := List.mem_filter.mp hr
+    obtain ⟨l, hmem⟩ := exists_mem_withLabels rules ls hl r hr'.1
+    exact ⟨relabel r l, List.mem_filter.mpr ⟨hmem, hr'.2⟩, e, by rw [evalRule_relabel env rules ls hl]; exact he⟩
+
+theorem produced_withLabels (env : Env) (rules : List Rule) (ls : List Str) (hl : ls.length = rules.length) (x : Str) :
+    Produced env (withLabels rules ls) x ↔ Produced env rules x := by
+  constructor
+  · rintro ⟨r', hr', out, ho, hx⟩
+    have hr'' := List.mem_filter.mp hr'
+    obtain ⟨r, hr, l, rfl⟩ := mem_withLabels rules ls hl r' hr''.1
+    rw [evalRule_relabel env rules ls hl] at ho
+    exact ⟨r, List.mem_filter.mpr ⟨hr, hr''.2⟩, out, ho, hx⟩
+  · rintro ⟨r, hr, out, ho, hx⟩
+    have hr' := List.mem_filter.mp hr
+    obtain ⟨l, hmem⟩ := exists_mem_withLabels rules ls hl r hr'.1
+    exact ⟨relabel r l, List.mem_filter.mpr ⟨hmem, hr'.2⟩, out,
+      by rw [evalRule_relabel env rules ls hl]; exact ho, hx⟩
+
+/-- the grouped run under any labelling has the outcome of the plain union over the unlabelled rules -/
+theorem grouped_withLabels_sameOutcome_all (env : Env) (rules : List Rule) (ls : List Str)
+    (hl : ls.length = rules.length) :
+    SameOutcome (evalGrouped env (withLabels rules ls)) (evalAll env rules) := by
+  rcases allOk_or_someError env rules with h | h
+  · obtain ⟨a, ha, hma⟩ := evalAll_ok env rules h
+    obtain ⟨g, hg, hmg⟩ := evalGrouped_ok env _ ((allOk_withLabels env rules ls hl).mpr h)
+    rw [ha, hg]
+    exact fun x => ((hmg x).trans (produced_withLabels env rules ls hl x)).trans (hma x).symm
+  · obtain ⟨e, he⟩ := evalAll_error env rules h
+    obtain ⟨e', he'⟩ := evalGrouped_error env _ ((someError_withLabels env rules ls hl).mpr h)
+    rw [he, he']; trivial
+
+/-- **A3.** For any two labellings of the rules the two grouped runs raise together or succeed together, and when
+    they succeed they have the same members. -/
+theorem C02_any_labelling (env : Env) (rules : List Rule) (ls ls' : List Str)
+    (hl : ls.length = rules.length) (hl' : ls'.length = rules.length) :
+    SameOutcome (evalGrouped env (withLabels rules ls)) (evalGrouped env (withLabels rules ls')) :=
+  (grouped_withLabels_sameOutcome_all env rules ls hl).trans
+    (grouped_withLabels_sameOutcome_all env rules ls' hl').symm
+
+/-- the same, spelt out -/
+theorem C02_any_labelling' (env : Env) (rules : List Rule) (ls ls' : List Str)
+    (hl : ls.length = rules.length) (hl' : ls'.length = rules.length) :
+    ((∃ e, evalGrouped env (withLabels rules ls) = .error e) ↔ (∃ e, evalGrouped env (withLabels rules ls') = .error e)) ∧
+    (∀ g g', evalGrouped env (withLabels rules ls) = .ok g → evalGrouped env (withLabels rules ls') = .ok g' →
+      ∀ x, x ∈ g ↔ x ∈ g') := by
+  have h := C02_any_labelling env rules ls ls' hl hl'
+  cases h1 : evalGrouped env (withLabels rules ls) <;> cases h2 : evalGrouped env (withLabels rules ls') <;>
+    simp_all [SameOutcome]
+
+/-! ### A4: what the partitioners must add -/
+
+/-- the partitioner's test for "the template has a reference": a `{` is left after `\{` has been masked -/
+def hasUnescapedBrace (t : Str) : Bool := isInfix ['{'] (replace t ['\\', '{'] auxString)
+
+theorem getInvariant_isSome (t : Str) : (getInvariantOfTemplate t).isSome = hasUnescapedBrace t := by
+  unfold getInvariantOfTemplate hasUnescapedBrace
+  dsimp only
+  split <;> simp_all
+
+/-! an independent reading of the same test, and its equivalence with the code's masking idiom -/
+
+/-- an independent reading of "the template contains an unescaped `{`": left to right, `\{` is skipped as a unit -/
+def hasRefScan : Str → Bool
+  | [] => false
+  | [c] => c = '{'
+  | c :: d :: s =>
+    if c = '{' then true else if c = '\\' ∧ d = '{' then hasRefScan s else hasRefScan (d :: s)
+
+def maskScan : Str → Str
+  | [] => []
+  | [c] => [c]
+  | c :: d :: s => if c = '\\' ∧ d = '{' then auxString ++ maskScan s else c :: maskScan (d :: s)
+
+theorem maskScan_cons_of_ne (c : Char) (s : Str) (h : ¬ (c = '\\' ∧ s.head? = some '{')) :
+    maskScan (c :: s) = c :: maskScan s := by
+  cases s with
+  | nil => simp [maskScan]
+  | cons d s' =>
+    have : ¬ (c = '\\' ∧ d = '{') := by simpa using h
+    simp [maskScan, this]
+
+theorem breakOn_mask (s : Str) :
+    match breakOn ['\\', '{'] s with
+    | none => maskScan s = s
+    | some (a, b) => maskScan s = a ++ auxString ++ maskScan b := by
+  induction s with
+  | nil => simp [breakOn, maskScan]
+  | cons c s ih =>
+    by_cases h : c = '\\' ∧ s.head? = some '{'
+    · obtain ⟨rfl, hs⟩ := h
+      cases s with
+      | nil => simp at hs
+      | cons d s' =>
+        simp only [List.head?_cons, Option.some.injEq] at hs
+        subst hs
+        simp [breakOn, maskScan]
+    · have hnp : List.isPrefixOf ['\\', '{'] (c :: s) = false := by
+        cases s with
+        | nil => simp [List.isPrefixOf]
+        | cons d s' =>
+          simp only [List.head?_cons, Option.some.injEq, not_and] at h
+          by_cases hc : c = '\\'
+          · have hd : ¬ d = '{' := h hc
+            have hd' : ('{' == d) = false := by simpa using fun e => hd e.symm
+            simp [List.isPrefixOf, hd']
+          · have hc' : ('\\' == c) = false := by simpa using fun e => hc e.symm
+            simp [List.isPrefixOf, hc']
+      rw [maskScan_cons_of_ne c s h]
+      unfold breakOn
+      simp only [hnp, Bool.false_eq_true, ↓reduceIte]
+      cases hb : breakOn ['\\', '{'] s with
+      | none => simp only [hb] at ih ⊢; rw [ih]
+      | some p =>
+        obtain ⟨a, b⟩ := p
+        simp only [hb] at ih ⊢
+        rw [ih]; simp
+
+theorem replaceFuel_mask (n : Nat) (s : Str) (h : s.length ≤ n) : replaceFuel ['\\', '{'] auxString n s = maskScan s := by
+  induction n generalizing s with
+  | zero =>
+    have : s = [] := List.length_eq_zero_iff.mp (by omega)
+    subst this; rfl
+  | succ n ih =>
+    unfold replaceFuel
+    have hm := breakOn_mask s
+    cases hb : breakOn ['\\', '{'] s with
+    | none => simp only [hb] at hm ⊢; exact hm.symm
+    | some p =>
+      obtain ⟨a, b⟩ := p
+      simp only [hb] at hm ⊢
+      have := breakOn_length_lt (by simp) hb
+      rw [ih b (by omega), hm]
+
+theorem isInfix_single (c : Char) (s : Str) : isInfix [c] s = decide (c ∈ s) := by
+  unfold isInfix
+  cases hb : breakOn [c] s with
+  | none => simp [breakOn_single_none hb]
+  | some p =>
+    obtain ⟨a, b⟩ := p
+    have := breakOn_eq_some hb
+    simp [this]
+
+theorem mem_maskScan (s : Str) : '{' ∈ maskScan s ↔ hasRefScan s = true := by
+  fun_induction maskScan s with
+  | case1 => simp [hasRefScan]
+  | case2 c => simp [hasRefScan, eq_comm]
+  | case3 c d s h ih =>
+    have : '{' ∉ auxString := by decide
+    obtain ⟨rfl, rfl⟩ := h
+    simp [hasRefScan, this, ih]
+  | case4 c d s h ih =>
+    unfold hasRefScan
+    by_cases hb : c = '{'
+    · simp [hb]
+    · simp only [hb, h, ↓reduceIte, List.mem_cons, ih]
+      constructor
+      · rintro (h' | h')
+        · exact absurd h'.symm hb
+        · exact h'
+      · exact Or.inr
+
+/-- the partitioner's masking test is the left-to-right scan: "some `{` is not the second character of a `\\{`" -/
+theorem hasUnescapedBrace_eq_scan (t : Str) : hasUnescapedBrace t = hasRefScan t := by
+  unfold hasUnescapedBrace replace
+  rw [replaceFuel_mask t.length t (Nat.le_refl _), isInfix_single]
+  rw [Bool.eq_iff_iff, decide_eq_true_eq]
+  exact mem_maskScan t
+
+example : hasRefScan "http://ex/\\{x\\}/{id}".toList = true ∧ hasRefScan "http://ex/\\{x\\}".toList = false ∧
+    hasRefScan "http://ex/const".toList = false ∧ hasRefScan "a\\\\{b".toList = false := by decide
+
+/-- a term map has an invariant: it is no template, or its template has an unescaped `{` -/
+def mapHasRef (mt : MapType) (v : Str) : Bool := mt != .template || hasUnescapedBrace v
+
+theorem invOf_isOk_iff (mt : MapType) (v : Str) : (∃ i, invOf mt v = .ok i) ↔ mapHasRef mt v = true := by
+  unfold invOf mapHasRef
+  rw [← getInvariant_isSome]
+  cases mt <;> simp
+  cases getInvariantOfTemplate v <;> simp
+
+/-- every `.parentTM` object names an existing rule -/
+def ParentExists (rules : List Rule) (r : Rule) : Bool :=
+  r.objectMapType != .parentTM || (rules.find? (fun q => q.tmId = r.objectMapValue)).isSome
+
+/-- every template-valued subject/predicate/object/graph map, and the subject map of the join parent, contains an
+    unescaped `{` -/
+def TemplatesHaveRef (rules : List Rule) (r : Rule) : Bool :=
+  mapHasRef r.subjectMapType r.subjectMapValue && mapHasRef r.predicateMapType r.predicateMapValue &&
+  (match r.objectMapType with
+    | .parentTM => match rules.find? (fun q => q.tmId = r.objectMapValue) with
+      | some parent => mapHasRef parent.subjectMapType parent.subjectMapValue
+      | none => true
+    | mt => mapHasRef mt r.objectMapValue) &&
+  mapHasRef r.graphMapType r.graphMapValue
+
+theorem objInv_isOk_iff (rules : List Rule) (r : Rule) :
+    (∃ i, objInv rules r = .ok i) ↔
+      (match r.objectMapType with
+        | .parentTM => match rules.find? (fun q => q.tmId = r.objectMapValue) with
+          | some parent => mapHasRef parent.subjectMapType parent.subjectMapValue
+          | none => true
+        | mt => mapHasRef mt r.objectMapValue) = true ∧ ParentExists rules r = true := by
+  unfold objInv ParentExists
+  cases hm : r.objectMapType
+  case parentTM =>
+    cases hf : List.find? (fun q => decide (q.tmId = r.objectMapValue)) rules
+    · simp
+    · simp [invOf_isOk_iff]
+  all_goals simp [invOf_isOk_iff]
+
+theorem invRow_isOk_iff (rules : List Rule) (i : Nat) (r : Rule) :
+    (∃ pr, invRow rules (i, r) = .ok pr) ↔ (TemplatesHaveRef rules r = true ∧ ParentExists rules r = true) := by
+  have h1 := invOf_isOk_iff r.subjectMapType r.subjectMapValue
+  have h2 := invOf_isOk_iff r.predicateMapType r.predicateMapValue
+  have h3 := objInv_isOk_iff rules r
+  have h4 := invOf_isOk_iff r.graphMapType r.graphMapValue
+  unfold TemplatesHaveRef
+  simp only [Bool.and_eq_true]
+  constructor
+  · rintro ⟨pr, hpr⟩
+    obtain ⟨s, p, o, g, hs, hp, ho, hg, _⟩ := (invRow_ok_iff rules (i, r) pr).mp hpr
+    have := h3.mp ⟨o, ho⟩
+    exact ⟨⟨⟨⟨h1.mp ⟨s, hs⟩, h2.mp ⟨p, hp⟩⟩, this.1⟩, h4.mp ⟨g, hg⟩⟩, this.2⟩
+  · rintro ⟨⟨⟨⟨a, b⟩, c⟩, d⟩, e⟩
+    obtain ⟨s, hs⟩ := h1.mpr a
+    obtain ⟨p, hp⟩ := h2.mpr b
+    obtain ⟨o, ho⟩ := h3.mpr ⟨c, e⟩
+    obtain ⟨g, hg⟩ := h4.mpr d
+    exact ⟨_, (invRow_ok_iff rules (i, r) _).mpr ⟨s, p, o, g, hs, hp, ho, hg, rfl⟩⟩
+
+/-- `_get_term_invariants` returns iff every template has a reference and every join parent exists -/
+theorem termInvariants_isOk_iff_wf (rules : List Rule) :
+    (∃ rs, termInvariants rules = .ok rs) ↔
+      ∀ r ∈ rules, TemplatesHaveRef rules r = true ∧ ParentExists rules r = true := by
+  rw [termInvariants_isOk_iff]
+  constructor
+  · intro h r hr; exact (invRow_isOk_iff rules 0 r).mp (h r hr 0)
+  · intro h r hr i; exact (invRow_isOk_iff rules i r).mpr (h r hr)
+
+theorem partitionLabels_none (rules : List Rule) :
+    partitionLabels .none rules = .ok (rules.map fun _ => "0-0-0-0".toList) := rfl
+
+theorem partitionLabels_partial (rules : List Rule) :
+    partitionLabels .partialAggregations rules =
+      (termInvariants rules).map fun rs => (List.range rules.length).map (componentOf (partialAggregations rs)) := by
+  unfold partitionLabels
+  cases termInvariants rules <;> rfl
+
+theorem partitionLabels_maximal (rules : List Rule) :
+    partitionLabels .maximal rules =
+      (termInvariants rules).map fun rs => (List.range rules.length).map (componentOf (maximal rs)) := by
+  unfold partitionLabels
+  cases termInvariants rules <;> rfl
+
+/-- a label list has one label per rule -/
+theorem partitionLabels_length (mode : PartMode) (rules : List Rule) (ls : List Str)
+    (h : partitionLabels mode rules = .ok ls) : ls.length = rules.length := by
+  cases mode with
+  | none => rw [partitionLabels_none] at h; cases h; simp
+  | partialAggregations =>
+    rw [partitionLabels_partial] at h
+    cases ht : termInvariants rules <;> simp [ht, Except.map] at h
+    subst h; simp
+  | maximal =>
+    rw [partitionLabels_maximal] at h
+    cases ht : termInvariants rules <;> simp [ht, Except.map] at h
+    subst h; simp
+
+/-- the two partitioning algorithms return iff `_get_term_invariants` does -/
+theorem partitionLabels_isOk_iff (mode : PartMode) (hm : mode ≠ .none) (rules : List Rule) :
+    (∃ ls, partitionLabels mode rules = .ok ls) ↔ (∃ rs, termInvariants rules = .ok rs) := by
+  cases mode with
+  | none => exact absurd rfl hm
+  | partialAggregations =>
+    rw [partitionLabels_partial]
+    cases termInvariants rules <;> simp [Except.map]
+  | maximal =>
+    rw [partitionLabels_maximal]
+    cases termInvariants rules <;> simp [Except.map]
+
+theorem partialAggregations_spec (rs : List PRule) :
+    (partialAggregations rs).map (·.1) = rs.map (·.idx) ∧ ∀ p ∈ partialAggregations rs, 3 ≤ p.2.length := by
+  unfold partialAggregations
+  dsimp only
+  constructor
+  · rw [List.map_map]; rfl
+  · intro p hp
+    obtain ⟨r, _, rfl⟩ := List.mem_map.mp hp
+    simp only [List.length_append, List.length_cons, List.length_nil]; omega
+
+/-- every label is a non-empty string (pandas `groupby` drops null keys; an empty label would also be the
+    "row not found" value of the model's lookup) -/
+theorem partitionLabels_nonempty (mode : PartMode) (rules : List Rule) (ls : List Str)
+    (h : partitionLabels mode rules = .ok ls) : ∀ l ∈ ls, l ≠ [] := by
+  have key : ∀ (rs : List PRule) (comps : List (Nat × Str)), termInvariants rules = .ok rs →
+      (comps.map (·.1)).Perm (rs.map (·.idx)) → (∀ p ∈ comps, 3 ≤ p.2.length) →
+      ∀ l ∈ (List.range rules.length).map (componentOf comps), l ≠ [] := by
+    intro rs comps ht hperm hlen l hl
+    obtain ⟨i, hi, rfl⟩ := List.mem_map.mp hl
+    have hidx := (termInvariants_ok rules rs ht).1
+    have : i ∈ comps.map (·.1) := by rw [hperm.mem_iff, hidx]; exact hi
+    obtain ⟨p, hp, hpi⟩ := List.mem_map.mp this
+    obtain ⟨q, hq, _, hc⟩ := componentOf_of_mem ⟨p, hp, hpi⟩
+    rw [hc]
+    have := hlen q hq
+    intro hnil; rw [hnil] at this; simp at this
+  cases mode with
+  | none =>
+    rw [partitionLabels_none] at h; cases h
+    intro l hl
+    obtain ⟨_, _, rfl⟩ := List.mem_map.mp hl
+    decide
+  | partialAggregations =>
+    rw [partitionLabels_partial] at h
+    cases ht : termInvariants rules with
+    | error e => simp [ht, Except.map] at h
+    | ok rs =>
+      simp only [ht, Except.map, Except.ok.injEq] at h
+      subst h
+      have := partialAggregations_spec rs
+      exact key rs _ ht (by rw [this.1]) this.2
+  | maximal =>
+    rw [partitionLabels_maximal] at h
+    cases ht : termInvariants rules with
+    | error e => simp [ht, Except.map] at h
+    | ok rs =>
+      simp only [ht, Except.map, Except.ok.injEq] at h
+      subst h
+      have := maximal_spec rs
+      exact key rs _ ht this.1 this.2
+
+/-- **A4.** With partitioning disabled labelling always succeeds; PARTIAL-AGGREGATIONS and MAXIMAL succeed iff every
+    template has a reference and every join parent exists; whenever a mode succeeds it yields one non-empty label
+    per rule. -/
+theorem C02_partitioners_total (rules : List Rule) :
+    (∃ ls, partitionLabels .none rules = .ok ls) ∧
+    (∀ mode, mode ≠ .none →
+      ((∃ ls, partitionLabels mode rules = .ok ls) ↔
+        ∀ r ∈ rules, TemplatesHaveRef rules r = true ∧ ParentExists rules r = true)) ∧
+    (∀ mode ls, partitionLabels mode rules = .ok ls → ls.length = rules.length ∧ ∀ l ∈ ls, l ≠ []) :=
+  ⟨⟨_, partitionLabels_none rules⟩,
+   fun mode hm => (partitionLabels_isOk_iff mode hm rules).trans (termInvariants_isOk_iff_wf rules),
+   fun mode ls h => ⟨partitionLabels_length mode rules ls h, partitionLabels_nonempty mode rules ls h⟩⟩
+
+/-! ### A5: the three modes -/
+
+/-- **C02.** For a mapping whose templates all have a reference and whose join parents exist, every mode labels the
+    rules, and for any two modes the grouped runs have the same outcome: they raise together, or return the same set
+    of statements. `env` is arbitrary: every data, every configuration, both output formats. -/
+theorem C02 (env : Env) (rules : List Rule)
+    (hwf : ∀ r ∈ rules, TemplatesHaveRef rules r = true ∧ ParentExists rules r = true) (m m' : PartMode) :
+    ∃ ls ls', partitionLabels m rules = .ok ls ∧ partitionLabels m' rules = .ok ls' ∧
+      SameOutcome (evalGrouped env (withLabels rules ls)) (evalGrouped env (withLabels rules ls')) := by
+  have hex : ∀ m, ∃ ls, partitionLabels m rules = .ok ls := by
+    intro m
+    by_cases hm : m = .none
+    · subst hm; exact (C02_partitioners_total rules).1
+    · exact ((C02_partitioners_total rules).2.1 m hm).mpr hwf
+  obtain ⟨ls, hls⟩ := hex m
+  obtain ⟨ls', hls'⟩ := hex m'
+  exact ⟨ls, ls', hls, hls', C02_any_labelling env rules ls ls'
+    (partitionLabels_length m rules ls hls) (partitionLabels_length m' rules ls' hls')⟩
+
+/-- both output formats, spelt out -/
+theorem C02_both_formats (env : Env) (rules : List Rule)
+    (hwf : ∀ r ∈ rules, TemplatesHaveRef rules r = true ∧ ParentExists rules r = true) (m m' : PartMode) (fmt : OutFmt) :
+    ∃ ls ls', partitionLabels m rules = .ok ls ∧ partitionLabels m' rules = .ok ls' ∧
+      SameOutcome (evalGrouped { env with fmt := fmt } (withLabels rules ls))
+        (evalGrouped { env with fmt := fmt } (withLabels rules ls')) :=
+  C02 { env with fmt := fmt } rules hwf m m'
+
+/-- … and each of them is the plain union over the rules -/
+theorem C02_eq_union (env : Env) (rules : List Rule) (m : PartMode) (ls : List Str)
+    (h : partitionLabels m rules = .ok ls) :
+    SameOutcome (evalGrouped env (withLabels rules ls)) (evalAll env rules) :=
+  grouped_withLabels_sameOutcome_all env rules ls (partitionLabels_length m rules ls h)
+
+/-! ### A6: what is not true of the unchanged code -/
+
+/-- one rule whose subject template has no reference -/
+def f1Rules : List Rule :=
+  [{ tmId := "#TM".toList, subjectMapType := .template, subjectMapValue := "http://ex/const".toList,
+     predicateMapValue := "http://ex/p".toList, objectMapValue := "http://ex/o".toList,
+     graphMapValue := "http://w3id.org/rml/defaultGraph".toList }]
+
+/-- **C02_F1.** With partitioning disabled the rule is labelled; PARTIAL-AGGREGATIONS (and MAXIMAL) abort the run with
+    `Invalid template`. -/
 theorem C02_F1_template_without_reference :
-    partitionLabels .none [witnessRule] = .ok ["0-0-0-0".toList] ∧
-    partitionLabels .partialAggregations [witnessRule] = .error (.invalidTemplate "http://ex/const".toList) ∧
-    partitionLabels .maximal [witnessRule] = .error (.invalidTemplate "http://ex/const".toList) ∧
-    evalRule { tables := [(([], []), [[]])] } [witnessRule] witnessRule = .ok ["<http://ex/const> <http://ex/p> <http://ex/o>".toList] := by
+    partitionLabels .none f1Rules = .ok ["0-0-0-0".toList] ∧
+    partitionLabels .partialAggregations f1Rules = .error (.invalidTemplate "http://ex/const".toList) ∧
+    partitionLabels .maximal f1Rules = .error (.invalidTemplate "http://ex/const".toList) := by
   decide +kernel
+
+/-- … while the statement exists: over a one-row source the unpartitioned run returns it -/
+theorem C02_F1_result_exists :
+    evalGrouped { tables := [(([], []), [[]])] } (withLabels f1Rules ["0-0-0-0".toList]) = .ok ["<http://ex/const> <http://ex/p> <http://ex/o>".toList] := by
+  decide +kernel
+
+/-- the witness is exactly outside the hypothesis of `C02` -/
+example : TemplatesHaveRef f1Rules f1Rules.head! = false := by decide +kernel
+
+/-! ### non-vacuity -/
+
+/-- a small mapping inside the hypotheses: a template subject, a constant and a template object, a join -/
+def exRules : List Rule :=
+  [{ tmId := "#A".toList, subjectMapValue := "http://ex/a/{id}".toList, predicateMapValue := "http://ex/p".toList,
+     objectMapType := .reference, objectMapValue := "name".toList, objectTermtype := .literal,
+     graphMapValue := "http://w3id.org/rml/defaultGraph".toList, logicalSourceValue := "t".toList },
+   { tmId := "#B".toList, subjectMapValue := "http://ex/b/{id}".toList, predicateMapValue := "http://ex/q".toList,
+     objectMapType := .parentTM, objectMapValue := "#A".toList, objectJoin := [("id".toList, "id".toList)],
+     graphMapValue := "http://ex/G".toList, logicalSourceValue := "t".toList }]
+
+def exEnv : Env :=
+  { fmt := .nquads, tables := [(([], "t".toList), [[("id".toList, .str "1".toList), ("name".toList, .str "n".toList)]])] }
+
+example : ∀ r ∈ exRules, TemplatesHaveRef exRules r = true ∧ ParentExists exRules r = true := by decide +kernel
+
+/-- the two algorithms split the two rules into two groups; the disabled mode keeps one -/
+example : partitionLabels .partialAggregations exRules = .ok ["1-1-2-2".toList, "2-2-1-1".toList] := by decide +kernel
+example : partitionLabels .maximal exRules = .ok ["1-1-1-1".toList, "2-1-1-1".toList] := by decide +kernel
+
+/-- all asserted rules evaluate (hypothesis of `grouped_eq_all`), and the result has two statements -/
+example : ∀ r ∈ exRules.filter (·.asserted), ∃ out, evalRule exEnv exRules r = .ok out := by
+  intro r hr
+  have : (evalRule exEnv exRules r).isOk = true := by
+    revert r; decide +kernel
+  cases h : evalRule exEnv exRules r with
+  | ok out => exact ⟨out, rfl⟩
+  | error e => simp [h, Except.isOk, Except.toBool] at this
+
+example : evalGrouped exEnv (withLabels exRules ["1-1-2-2".toList, "2-2-1-1".toList]) =
+    .ok ["<http://ex/a/1> <http://ex/p> \"n\" ".toList, "<http://ex/b/1> <http://ex/q> <http://ex/a/1> <http://ex/G>".toList] := by
+  decide +kernel
+
+/-- the error branch of A2 is inhabited too: a missing column raises in both runs -/
+example : ∃ r ∈ exRules.filter (·.asserted), ∃ e, evalRule { exEnv with tables := [(([], "t".toList), [[]])] } exRules r = .error e :=
+  ⟨exRules.head!, by decide, .keyError "id".toList, by decide +kernel⟩
 
 end Props.C02
